@@ -364,6 +364,10 @@ EXTRA = [   # (program after the preamble, expected text) -- switches declared i
     (r'\ifdefined\ifzzq \else \newif\ifzzq \ifzzq A\else B\fi \fi E', 'BE'),
     (r'\ifnum 1<2\relax \newif\ifzzq \ifzzq A\fi C\else D\fi ', 'C'),
 ]
+# switch names that contain 'if' / 'fi' again after the prefix: the setters are \<name without the first two letters>true/false
+for _nm in ('verified', 'diff', 'ifx', 'fiif', 'f', 'modified'):
+    EXTRA.append((r'\newif\if%s \if%s A\else B\fi \%strue \if%s C\else D\fi \%sfalse \if%s E\else F\fi ' % ((_nm,) * 6), 'BCF'))
+EXTRA.append((r'\newif\ifdiff \newif\ifdf \difftrue \ifdf A\else B\fi \ifdiff C\else D\fi ', 'BC'))
 # empty branches: a selected branch without any token must not fall through to another branch
 for _t, _v in ((r'\iftrue ', True), (r'\iffalse ', False), (r'\ifnum 1<2\relax ', True), (r'\ifx ab', False), (r'\ifodd 3\relax ', True),
                (r'\ifdefined\zzma ', True), (r'\ifdim 1pt>2pt\relax ', False)):
